@@ -175,10 +175,11 @@ impl GroupScen {
                 format!("{}:{}", a, opt_str(&v))
             })
             .collect();
-        let pagediff = paging_audit("list_members", &|c, l| {
+        let pool_s: Vec<String> = self.pool.iter().map(|a| a.to_string()).collect();
+        let pagediff = paging_audit_cursors("list_members", &|c, l| {
             self.q::<MemberListResponse>(QueryMsg::ListMembers { start_after: c, limit: l })
                 .map(|r| r.members.iter().map(|m| format!("{}:{}", m.addr, m.weight)).collect())
-        })
+        }, &pool_s)
         .unwrap_or_default();
         format!(
             "obs pagediff={} admin={} hooks={} members={} total={} mh={} th={} rawtotal={} rawmem={}",
